@@ -13,11 +13,14 @@ CONSTANTS Widths,     \* fixed widths to enumerate
           UEBig,      \* lengths L of the big ue values: codeNum+1 = 2^L - 1 and 2^(L-1)
           UESmall,    \* small code numbers
           SEVals,     \* magnitudes of the signed values (both signs are generated)
+          ByteLens,   \* lengths of the byte-string ops (written byte by byte, read back with one ReadBytes call at any bit alignment)
           MaxOps, DoExport
 
 Patterns(wd) == { Zeros(wd), Ones(wd), <<1>> \o Zeros(wd - 1), Zeros(wd - 1) \o <<1>>,
                   [i \in 1 .. wd |-> i % 2] }
 
+\* byte strings: all ones; 00 00 03 00 00 01 ... (every triple needs an emulation prevention byte); a counting pattern
+ByteAt(pat, i) == CASE pat = "ones" -> 255 [] pat = "esc" -> (IF i % 3 = 0 THEN (IF i % 2 = 0 THEN 1 ELSE 3) ELSE 0) [] OTHER -> (37 * i + 11) % 256
 OpSet ==
     {[k |-> "u", bits |-> p] : p \in UNION {Patterns(wd) : wd \in Widths}}
     \cup {[k |-> "s", bits |-> p] : p \in UNION {Patterns(wd) : wd \in (Widths \ {1})}}
@@ -26,6 +29,7 @@ OpSet ==
     \cup {[k |-> "ue", bits |-> Ones(L)] : L \in UEBig}
     \cup {[k |-> "ue", bits |-> <<1>> \o Zeros(L - 1)] : L \in UEBig}
     \cup {[k |-> "se", bits |-> Bin(SEMap(v) + 1), v |-> v] : v \in SEVals \cup {0 - x : x \in SEVals}}
+    \cup {[k |-> "b", bits |-> Flatten([i \in 1 .. n |-> BinW(ByteAt(pat, i), 8)])] : n \in ByteLens, pat \in {"ones", "esc", "count"}}
 
 Code(op) == IF op.k \in {"ue", "se"} THEN UECodeP(op.bits) ELSE op.bits
 
